@@ -63,6 +63,14 @@ M = [
     ("C17", "disconnect decrements twice", "src/lib/bo.rs", "                        db.dec_connections();\n                        set_connection_counter(db, &dbs);", "                        db.dec_connections();\n                        db.dec_connections();\n                        set_connection_counter(db, &dbs);"),
     ("C17", "inc adds two", "src/lib/bo.rs", "*connections.get_mut() = *connections.get_mut() + 1;", "*connections.get_mut() = *connections.get_mut() + 2;"),
     ("C17", "$connections written with a stale text", "src/lib/db_ops.rs", "let value = db.connections_count().to_string();\n    return set_key_value(CONNECTIONS_KEY.to_string(), value, -1, db, &dbs);", "let value = db.connections_count().to_string();\n    return set_key_value(CONNECTIONS_KEY.to_string(), String::from(\"0\"), -1, db, &dbs);"),
+    # ---- C20
+    ("C20", "leftover messages are not drained", "src/lib/network/http_ops.rs", "            while let Ok(Some(_)) = receiver.try_next() {}\n", ""),
+    ("C20", "only refused commands are drained", "src/lib/network/http_ops.rs", "                    responses.push(msg.clone());\n                    log::debug!(\"Http response Error: {}\", msg);\n                }\n                Response::VersionError {", "                    responses.push(msg.clone());\n                    while let Ok(Some(_)) = receiver.try_next() {}\n                    log::debug!(\"Http response Error: {}\", msg);\n                }\n                Response::VersionError {", "            while let Ok(Some(_)) = receiver.try_next() {}\n        }\n    }\n", "        }\n    }\n"),
+    ("C20", "an empty queue gives no entry", "src/lib/network/http_ops.rs", "                            _ => {\n                                responses.push(\"empty\".to_string());", "                            _ => {"),
+    ("C20", "blank statements get an entry", "src/lib/network/http_ops.rs", "        if clean_command != \"\" {", "        if clean_command != \"\" || responses.len() == 1 {"),
+    ("C20", "version errors report the queued message", "src/lib/network/http_ops.rs", "                    db: _,\n                } => {\n                    responses.push(msg.clone());", "                    db: _,\n                } => {\n                    responses.push(match receiver.try_next() { Ok(Some(m)) => m, _ => msg.clone() });"),
+    ("C20", "session keeps its connection count", "src/lib/network/http_ops.rs", "    client.left(&dbs);\n", ""),
+    ("C20", "session keeps its subscriptions", "src/lib/network/http_ops.rs", "    process_request(\"unwatch-all\", dbs, client); //To dicsconect\n", ""),
     # ---- C19
     ("C19", "older change wins", "src/lib/consensus_ops.rs", "if change.opp_id > old_value.opp_id {", "if change.opp_id < old_value.opp_id {"),
     ("C19", "reply names the rejected value", "src/lib/consensus_ops.rs", "                                value: old_value.value.to_string(),", "                                value: change.value.to_string(),"),
